@@ -4,6 +4,7 @@
 
 #include "c11_big.h"
 #include "c11_lambda.h"
+#include "c12_targets.h"
 
 namespace c12big
 {
@@ -13,18 +14,17 @@ inline bool dispatch(const std::string &type, splitmix &r, const std::string &by
 {
   if (type == "imep")
   {
-    i_mep x(make_imep(r, false));
-    (void)x.signature();      // the cached signature is part of the target's state
-    std::cout << run_load(x, bytes, [](i_mep &y, std::istream &in) { return y.load(in, M().prob.sset); },
+    i_mep x(c12t::make_target_imep(r));
+    std::cout << run_load(type, x, bytes, [](i_mep &y, std::istream &in) { return y.load(in, M().prob.sset); },
                           [](const i_mep &y) { return snap(y); }, [](const i_mep &y) { return enc(y); })
               << "\n";
     return true;
   }
   if (type == "team")
   {
-    team<i_mep> x(make_team(r));
-    (void)x.signature();
-    std::cout << run_load(x, bytes, [](team<i_mep> &y, std::istream &in) { return y.load(in, M().prob.sset); },
+    team<i_mep> x(c12t::make_target_team(r));
+    std::cout << run_load(type, x, bytes,
+                          [](team<i_mep> &y, std::istream &in) { return y.load(in, M().prob.sset); },
                           [](const team<i_mep> &y) { return snap(y); },
                           [](const team<i_mep> &y) { return enc(y); })
               << "\n";
@@ -32,10 +32,9 @@ inline bool dispatch(const std::string &type, splitmix &r, const std::string &by
   }
   if (type == "pop")
   {
-    population<i_mep> x(make_pop(r));
-    for (unsigned l(0); l < x.layers(); ++l)
-      for (unsigned i(0); i < x.individuals(l); ++i) (void)x[{l, i}].signature();
-    std::cout << run_load(x, bytes, [](population<i_mep> &y, std::istream &in) { return y.load(in, M().prob); },
+    population<i_mep> x(c12t::make_target_pop(r));
+    std::cout << run_load(type, x, bytes,
+                          [](population<i_mep> &y, std::istream &in) { return y.load(in, M().prob); },
                           [](const population<i_mep> &y) { return snap(y); },
                           [](const population<i_mep> &y) { return enc(y); })
               << "\n";
@@ -43,11 +42,9 @@ inline bool dispatch(const std::string &type, splitmix &r, const std::string &by
   }
   if (type == "summ")
   {
-    summary<i_mep> x(make_summ(r));
-    if (!x.best.solution.empty()) (void)x.best.solution.signature();
-    // give the analyzer some content: load() replaces the whole object
-    x.az.add(make_imep(r, false, 8), make_fit(r, false), 0);
-    std::cout << run_load(x, bytes, [](summary<i_mep> &y, std::istream &in) { return y.load(in, M().prob); },
+    summary<i_mep> x(c12t::make_target_summ(r));
+    std::cout << run_load(type, x, bytes,
+                          [](summary<i_mep> &y, std::istream &in) { return y.load(in, M().prob); },
                           [](const summary<i_mep> &y) { return snap(y); },
                           [](const summary<i_mep> &y) { return enc(y); })
               << "\n";
